@@ -62,7 +62,7 @@ econf_errString (const econf_err error)
 {
   if (error >= sizeof(messages)/sizeof(messages[0]))
     {
-      static char buffer[1024]; /* should always be big enough, else truncate */
+      static __thread char buffer[1024]; /* should always be big enough, else truncate */
       const char *unknown = "Unknown libeconf error %i";
 
       snprintf (buffer, sizeof (buffer), unknown, error);
